@@ -59,7 +59,8 @@ def shifted(R: np.ndarray, sub: int):
     return out
 
 
-def prepared(L, R, ML, MR, off, sub, dist, inten, valid=0):
+def prepared(L, R, ML, MR, off, sub, dist, inten, valid=0, valid_right=None):
+    valid_right = valid if valid_right is None else valid_right
     H, W = L.shape
     Lm = L.astype(np.float32).copy()
     if ML is not None:
@@ -70,7 +71,7 @@ def prepared(L, R, ML, MR, off, sub, dist, inten, valid=0):
     for i, Ri in enumerate(shifted(R.astype(np.float32), sub)):
         Rm = Ri.copy()
         if MR is not None:
-            bad = MR != valid
+            bad = MR != valid_right
             if i == 0:
                 Rm[bad] = np.nan
             else:
@@ -82,10 +83,10 @@ def prepared(L, R, ML, MR, off, sub, dist, inten, valid=0):
     return AL, AR
 
 
-def aggregate(L, R, ML, MR, cv, disps, off, sub, dist, inten, valid=0):
+def aggregate(L, R, ML, MR, cv, disps, off, sub, dist, inten, valid=0, valid_right=None):
     """returns (expected cost volume float64, region-size stats)"""
     H, W = L.shape
-    AL, AR = prepared(L, R, ML, MR, off, sub, dist, inten, valid)
+    AL, AR = prepared(L, R, ML, MR, off, sub, dist, inten, valid, valid_right)
     cvi = cv[off:H - off, off:W - off] if off else cv
     h, w, nd = cvi.shape
     out = cvi.astype(np.float64).copy()
